@@ -16,7 +16,7 @@ DEFAULT = dict(
     weights=dict(ssink=3, ssinkc=1, csink=2, const=0.3, never=0.2, map=4, mapto=0.5, filter=2, filteropt=0.5,
                  merge=4, orelse=1.5, snapshot=3, snapshot1=0.7, snapshotn=0.5, gate=1, hold=2.5, once=1, updates=1,
                  value=1, mapc=1.5, lift2=2, liftn=0.5, accum=1.5, collect=1, defer=0, split=0, switchs=0, switchc=0,
-                 sloop=0, cloop=0, router=0, holdlazy=0, switchdyn=0, accumlazy=0, collectlazy=0, route=0, switchlate=0, switchlatec=0, snaplazy=0, snapmapc=0, latelisten=0, deepdiamond=0, lift2d=0, handlerlisten=0, latehold=0, lateloop=0, switchnest=0, leafdrop=0),
+                 sloop=0, cloop=0, router=0, holdlazy=0, switchdyn=0, accumlazy=0, collectlazy=0, route=0, switchlate=0, switchlatec=0, snaplazy=0, snapmapc=0, latelisten=0, deepdiamond=0, lift2d=0, handlerlisten=0, latehold=0, lateloop=0, switchnest=0, leafdrop=0, lateswitch=0, lateswitchc=0),
     max_defer=1, leakcheck=False, malformed=False, values=(-5, 15), coalesce_sends=False,
 )
 
@@ -227,6 +227,17 @@ class Gen:
             l = self.fresh("l")
             L.append(f"handlerlisten {l} {trig} {s2}" if kind == "handlerlisten" else
                      f"latehold {l} {trig} {s2} {self.val()}" if kind == "latehold" else f"lateloop {l} {trig} {s2} {self.small()}")
+        elif kind in ("lateswitch", "lateswitchc") and s and s2 and not self.t(s) and not self.t(s2) and (kind == "lateswitch" or (c and not self.t(c) and c not in self.swc)):
+            # a switch built by a handler; half of the time the handler is downstream of what the switch follows
+            tgt = s2 if kind == "lateswitch" else c
+            trig = s
+            if self.r.random() < 0.5:
+                if kind == "lateswitch":
+                    trig = self.fresh("s"); L.append(f"map {trig} {s2} {self.small()}"); self.add_stream(trig, set())
+                else:
+                    u = self.fresh("s"); L.append(f"updates {u} {c}"); self.add_stream(u, set()); self.ident[u] = self.ustream.get(c, "u:" + c)
+                    trig = self.fresh("s"); L.append(f"map {trig} {u} {self.small()}"); self.add_stream(trig, set())
+            L.append(f"{kind} {self.fresh('l')} {trig} {tgt}")
         elif kind == "leafdrop" and s and s2 and not self.t(s) and not self.t(s2):
             # the handler that drops the leaf is up- or downstream of the leaf's source, or unrelated
             trig = s
